@@ -91,6 +91,34 @@ theorem history_refused_count (c : HCfg) (ops : List Op) (t : HashTable) (m : Me
       have : ((t.step c op m).1.st == some Stat.errAlloc) = false := by simpa using a
       rw [this]; simp
 
+/-- **every failure is pinned, for every schedule** (the oracle `failedOf` that the ideal map takes
+from the run): an insertion reports `CC_OK`, or `CC_ERR_ALLOC` exactly with a fired refusal, or
+`CC_ERR_MAX_CAPACITY` — and then the table has the maximal capacity `2^31` and no refusal fired -/
+theorem add_failure_pinned (c : HCfg) (t : HashTable) (k : Key) (v : Nat) (m : Mem) (h : t.Inv c) :
+    (t.add c k v m).1 = .ok ∨
+    ((t.add c k v m).1 = .errAlloc ∧ (t.add c k v m).2.2.nrefused = m.nrefused + 1) ∨
+    ((t.add c k v m).1 = .errMaxCapacity ∧ (t.add c k v m).2.1.capacity = Gen.MAX_POW_TWO ∧
+       (t.add c k v m).2.2.nrefused = m.nrefused) := by
+  by_cases hok : (t.add c k v m).1 = .ok
+  · exact Or.inl hok
+  · rcases ((HashTable.add_spec c t k v m h).2.2.1 hok).1 with h1 | h1
+    · right; left
+      rcases HashTable.add_nrefused c t k v m with ⟨_, b⟩ | ⟨a, _⟩
+      · exact ⟨h1, b⟩
+      · exact absurd h1 a
+    · right; right
+      rcases HashTable.add_nrefused c t k v m with ⟨a, _⟩ | ⟨_, b⟩
+      · rw [h1] at a; cases a
+      · exact ⟨h1, HashTable.add_maxcap c t k v m h h1, b⟩
+
+/-- … at history level: every entry of the failure list is `none`, `CC_ERR_ALLOC` (counted by
+`history_refused_count`) or `CC_ERR_MAX_CAPACITY`, the latter only in a history that ends at capacity `2^31` -/
+theorem history_failures_pinned (c : HCfg) (ops : List Op) (t : HashTable) (m : Mem) (h : t.Inv c)
+    (hl : t.size + 2 ≤ liveOf m t.triple) :
+    ∀ f ∈ (t.run c ops m).2.1, f = none ∨ f = some .errAlloc ∨
+      (f = some .errMaxCapacity ∧ (t.run c ops m).2.2.1.capacity = Gen.MAX_POW_TWO) :=
+  (HashTable.run_failures_pinned c ops t m h hl).1
+
 /-- a call that does not report `CC_ERR_ALLOC` saw no refusal -/
 theorem not_refused (c : HCfg) (t : HashTable) (op : Op) (m : Mem) (h : (t.step c op m).1.st ≠ some .errAlloc) :
     (t.step c op m).2.2.nrefused = m.nrefused := by
@@ -159,6 +187,20 @@ theorem continue_no_refusal (c : HCfg) (t : HashTable) (k : Key) (v : Nat) (m mA
   have f1 := (C02.history_statuses_closed c ops _ _ b5 (by rw [hT]; omega) hs hcap).1
   have f2 := (C02.history_statuses_closed c ops t mA h hlA hsA hcapA).1
   exact continue_ c t k v m mA ops h hl hlA hfail (by rw [f1, f2])
+
+/-- why `continue_` compares the failure lists and not "the same remaining schedule": after a failed
+insertion the table may already be resized, so the continuation performs *fewer* allocations than the
+same history on the untouched table and later refusals hit different calls.  Witness: capacity 1,
+threshold `cap/2`; the first `add` resizes and is refused the entry (schedule `[false, true]`); with
+the remaining schedule `[false, true]` the continuation inserts key 2 successfully, the untouched
+table is refused. -/
+example :
+    let c : HCfg := ⟨fun k => k, fun cap => cap / 2, fun cap => cap * 2⟩
+    let t : HashTable := HashTable.mk 1 0 0 [[]] .conf
+    let r := t.add c (some 1) 1 { live := 2, sched := [false, true, false, true] }
+    r.1 = .errAlloc ∧ r.2.2.sched = [false, true] ∧
+    (r.2.1.add c (some 2) 2 r.2.2).1 = .ok ∧
+    (t.add c (some 2) 2 { live := 2, sched := [false, true] }).1 = .errAlloc := by decide
 
 /-- the same on the ideal map: a refused insertion in the middle of a history changes neither the
 final map nor any other output -/
